@@ -150,9 +150,17 @@ func cmdCheck(args []string) {
 			var sel []*Obligation
 			for _, o := range res.Obls {
 				suffix := strings.TrimPrefix(o.Name, res.Name+"/")
+				// structurally split goals (ensures:label.1.2, ensures:label:Pred.1, ensures:label~pos) match as their clause
+				base := suffix
+				if strings.HasPrefix(suffix, "ensures:") {
+					rest := suffix[len("ensures:"):]
+					if i := strings.IndexAny(rest, ".:~"); i >= 0 {
+						base = "ensures:" + rest[:i]
+					}
+				}
 				keep := len(incs) == 0 || o.Kind == "subset"
 				for _, re := range incs {
-					if re.MatchString(suffix) {
+					if re.MatchString(suffix) || re.MatchString(base) {
 						keep = true
 					}
 				}
